@@ -76,6 +76,56 @@ template <typename IM> void common_u(const Ctx& c, const IM& im) {
 }
 void state(const char* s) { vf::label(std::string("state:") + s); }
 
+// Legacy forms of the compact Theta image (serial version 1; serial version 2 with 1, 2 or 3 preamble longs - the Java library before the
+// v3 format; the reader claims to accept them and the repository ships four such files). They are derived from the current state: always
+// ordered, no empty flag (empty is "no entries and theta = 1.0"), v1 without a seed hash. Every reader must decode them to the same sketch.
+void chk_theta_legacy_forms(const Ctx& c, fam::ThetaObj& o) {
+  const auto& sk = o.sk;
+  const uint64_t MAXT = datasketches::theta_constants::MAX_THETA;
+  if (!sk.is_empty() && sk.get_num_retained() == 0 && sk.get_theta64() == MAXT) return;  // not representable without an empty flag
+  datasketches::compact_theta_sketch ordered(sk, true);
+  const std::string want = fam::ThetaObj::obs(ordered);
+  std::vector<uint64_t> e; for (auto it = ordered.begin(); it != ordered.end(); ++it) e.push_back(*it);
+  const uint64_t theta = sk.is_empty() ? MAXT : sk.get_theta64();
+  const uint16_t sh = sk.get_seed_hash();
+  auto put32 = [](fam::Bytes& b, uint32_t v) { for (int i = 0; i < 4; ++i) b.push_back(static_cast<uint8_t>(v >> (8 * i))); };
+  auto put64 = [](fam::Bytes& b, uint64_t v) { for (int i = 0; i < 8; ++i) b.push_back(static_cast<uint8_t>(v >> (8 * i))); };
+  struct Form { const char* name; fam::Bytes img; };
+  std::vector<Form> forms;
+  {  // serial version 1: 3 preamble longs, no seed hash
+    fam::Bytes b{3, 1, 3, 0, 0, 0, 0, 0};
+    put32(b, static_cast<uint32_t>(e.size())); put32(b, 0); put64(b, theta); for (auto h : e) put64(b, h);
+    forms.push_back({"serial version 1", b});
+  }
+  {  // serial version 2, 3 preamble longs
+    fam::Bytes b{3, 2, 3, 0, 0, 0, static_cast<uint8_t>(sh & 0xff), static_cast<uint8_t>(sh >> 8)};
+    put32(b, static_cast<uint32_t>(e.size())); put32(b, 0); put64(b, theta); for (auto h : e) put64(b, h);
+    forms.push_back({"serial version 2 / 3 preamble longs", b});
+  }
+  if (theta == MAXT && !e.empty()) {  // exact mode: 2 preamble longs
+    fam::Bytes b{2, 2, 3, 0, 0, 0, static_cast<uint8_t>(sh & 0xff), static_cast<uint8_t>(sh >> 8)};
+    put32(b, static_cast<uint32_t>(e.size())); put32(b, 0); for (auto h : e) put64(b, h);
+    forms.push_back({"serial version 2 / 2 preamble longs", b});
+  }
+  if (sk.is_empty()) forms.push_back({"serial version 2 / 1 preamble long", fam::Bytes{1, 2, 3, 0, 0, 0, static_cast<uint8_t>(sh & 0xff), static_cast<uint8_t>(sh >> 8)}});
+  for (const Form& f : forms) {
+    std::string o1, o2, o3;
+    try {
+      o1 = fam::ThetaObj::obs(datasketches::compact_theta_sketch::deserialize(f.img.data(), f.img.size(), o.seed));
+      std::istringstream is(std::string(f.img.begin(), f.img.end()), std::ios::binary);
+      o2 = fam::ThetaObj::obs(datasketches::compact_theta_sketch::deserialize(is, o.seed));
+      o3 = fam::ThetaObj::obs(datasketches::wrapped_compact_theta_sketch::wrap(f.img.data(), f.img.size(), o.seed));
+    } catch (const std::exception& ex) {
+      VF_CHECK(false, "theta-legacy-form", WHO << "the same content as a '" << f.name << "' image is refused: " << ex.what() << "  image[" << f.img.size() << "]=" << hex(f.img));
+    }
+    VF_CHECK(o1 == want, "theta-legacy-form", WHO << "the same content as a '" << f.name << "' image decodes (bytes) to a different sketch:\n  " << o1.substr(0, 400) << "\n  expected " << want.substr(0, 400));
+    VF_CHECK(o2 == want, "theta-legacy-form", WHO << "the same content as a '" << f.name << "' image decodes (stream) to a different sketch:\n  " << o2.substr(0, 400) << "\n  expected " << want.substr(0, 400));
+    VF_CHECK(o3 == want, "theta-legacy-form", WHO << "the same content as a '" << f.name << "' image is wrapped as a different sketch:\n  " << o3.substr(0, 400) << "\n  expected " << want.substr(0, 400));
+    vf::count("theta-legacy-forms-checked");
+  }
+  if (!sk.is_empty() && sk.get_num_retained() == 0) vf::label("theta-legacy:estimating-nothing-retained");
+}
+
 // ---------------------------------------------------------------- theta / tuple / aod
 void chk_theta(const Ctx& c, fam::ThetaObj& o) {
   auto im = decode(c, L::decode_theta); const auto& sk = o.sk;
@@ -92,6 +142,7 @@ void chk_theta(const Ctx& c, fam::ThetaObj& o) {
   vf::label("theta:v" + std::to_string(im.ser_ver) + "/pre" + std::to_string(im.pre_longs));
   state(sk.is_empty() ? "theta/empty" : sk.is_estimation_mode() ? "theta/estimation" : api.size() == 1 ? "theta/single" : "theta/exact");
   if (im.ser_ver == 4) vf::count("theta-v4-entries", im.entries.size());
+  else chk_theta_legacy_forms(c, o);
 }
 void chk_tuple(const Ctx& c, fam::TupleObj& o) {
   auto im = decode(c, L::decode_tuple_double); const auto& sk = o.sk;
@@ -676,10 +727,13 @@ void prop_theta_boundary(const Case& cs) {
   const uint64_t n = static_cast<uint64_t>(std::max<int64_t>(1, std::min<int64_t>(70000, cs.get("n", 256))));
   const bool est = cs.get("est", 0) & 1;
   uint8_t lg_k = 5; while ((1ull << lg_k) < n) ++lg_k;
-  auto us = datasketches::update_theta_sketch::builder().set_lg_k(lg_k).build();
+  // "none" = the count boundary at zero: a sampling sketch (p = 1e-6) that has seen items but retained none - estimation mode without entries
+  const bool none = cs.get("none", 0) & 1;
+  auto us = none ? datasketches::update_theta_sketch::builder().set_lg_k(lg_k).set_p(1e-6f).build() : datasketches::update_theta_sketch::builder().set_lg_k(lg_k).build();
   const uint64_t feed = est ? n * 6 : n;
   for (uint64_t i = 0; i < feed; ++i) us.update(static_cast<int64_t>(i * 7 + 3));
   if (est) us.trim();
+  if (none && us.get_num_retained() != 0) return;
   fam::ThetaObj o(us.compact(true), datasketches::DEFAULT_SEED, lg_k);
   for (int v = 0; v < 2; ++v) {
     fam::Bytes img = o.bytes(0, v);
@@ -688,12 +742,13 @@ void prop_theta_boundary(const Case& cs) {
     auto r = datasketches::compact_theta_sketch::deserialize(img.data(), img.size());
     VF_CHECK(fam::ThetaObj::obs(r) == o.observe(), "theta-boundary-readback", WHO << "the library's own reader does not recover the sketch with " << o.sk.get_num_retained() << " entries");
   }
-  vf::label(est ? "theta-boundary:trimmed" : "theta-boundary:exact");
+  vf::label(none ? "theta-boundary:nothing-retained" : est ? "theta-boundary:trimmed" : "theta-boundary:exact");
   vf::nontrivial();
 }
 void enum_theta_boundary(std::function<bool(const Case&)> run) {
   for (int64_t n : {1, 2, 255, 256, 257, 65535, 65536, 65537}) { Case c; c.set("n", n); c.set("est", 0); if (!run(c)) return; }
   for (int64_t n : {256, 65536}) { Case c; c.set("n", n); c.set("est", 1); if (!run(c)) return; }
+  for (int64_t n : {1, 3, 40}) { Case c; c.set("n", n); c.set("est", 0); c.set("none", 1); if (!run(c)) return; }
 }
 
 }  // namespace
